@@ -59,7 +59,7 @@ func vfc41Dur(rng *rand.Rand) int64 {
 }
 
 // vfc41Gen draws one request. The number of evaluation steps and of interval crossings is bounded
-// (<= ~6000) so that every case is cheap; everything else is free.
+// (<= ~1500) so that every case is cheap; everything else is free.
 func vfc41Gen(rng *rand.Rand) vfc41Case {
 	var c vfc41Case
 	switch rng.Intn(10) {
@@ -127,7 +127,7 @@ func vfc41Gen(rng *rand.Rand) vfc41Case {
 	}
 	c.Start = base
 	// length: bounded number of steps and of intervals
-	maxLen := int64(6000)
+	maxLen := int64(1500)
 	var length int64
 	unit := c.Step
 	if c.Kind != "range" || c.Interval > c.Step {
@@ -144,7 +144,11 @@ func vfc41Gen(rng *rand.Rand) vfc41Case {
 	case 2:
 		nUnits = int64(rng.Intn(4))
 	case 3:
-		nUnits = int64(rng.Intn(int(maxLen)))
+		if rng.Intn(3) == 0 {
+			nUnits = int64(rng.Intn(int(maxLen)))
+		} else {
+			nUnits = int64(rng.Intn(200))
+		}
 	default:
 		nUnits = int64(rng.Intn(40))
 	}
@@ -315,8 +319,8 @@ func TestVF_C41(t *testing.T) {
 	r := vfkit.Start(t, "C41")
 	defer r.Finish()
 	r.Rule("case = batch of 50 generated requests (80% range, 10% labels, 10% series): step and interval from 1 ms..30 d (round, odd, step=interval, step>interval, step|interval), " +
-		"start at 0 / 2021 / far future, aligned to step / to interval / just before an interval boundary / unaligned, length 0 (start==end), shorter than a step, 0..6000 steps or intervals, +-1 ms around multiples; " +
-		"real splitQuery (every request) and real SplitByIntervalMiddleware.Do with a recording next, with and without StepAlignMiddleware in front (every 8th request); " +
+		"start at 0 / 2021 / far future, aligned to step / to interval / just before an interval boundary / unaligned, length 0 (start==end), shorter than a step, 0..1500 steps or intervals, +-1 ms around multiples; " +
+		"real splitQuery (every request) and real SplitByIntervalMiddleware.Do with a recording next, with and without StepAlignMiddleware in front (every 8th request with <= 300 sub-requests); " +
 		"oracle (arithmetic, exact): sorted sub-requests chain start, last_i+step, ... up to the original's last timestamp <=> multiset of evaluation timestamps equals the original's; every sub-request start = start mod step, same step, same query meaning (@start()/@end() pinned to the original range); " +
 		"label/series: union of sub-ranges covers every instant of [start,end]; distinct = (kind,start,end,step,interval); non-trivial = split into >= 2 sub-requests, or start==end, or step >= interval")
 	n := r.N(4000, 200000)
@@ -397,7 +401,7 @@ func vfc41Run(r *vfkit.Run, c int, cs vfc41Case, ctx context.Context, rangeCodec
 			return
 		}
 	}
-	if !viaMw {
+	if !viaMw || len(subs) > 300 || (cs.End-cs.Start)/cs.Step > 1500 {
 		return
 	}
 	// through the real middleware with a recording next handler
